@@ -123,6 +123,9 @@ fn seg(r: &mut Rng) -> String {
 }
 
 pub fn gen_path(r: &mut Rng, tier: &str, emit: &mut dyn FnMut(String)) {
+    // every case twice: through `Path::new` and through `Path::from`
+    let mut emit2 = |l: String| { emit(l.clone()); emit(format!("{} f", l)); };
+    let emit: &mut dyn FnMut(String) = &mut emit2;
     let mut e = |s: &str| emit(hex(s.as_bytes()));
     // corpus
     for s in ["_SB_", "\\_SB_", "_SB_.PCI0", "\\_SB_.PCI0", "_SB_.PCI0.S08_", "\\_SB_.PCI0.S08_.ABCD",
@@ -193,7 +196,8 @@ pub fn gen_path(r: &mut Rng, tier: &str, emit: &mut dyn FnMut(String)) {
 
 pub fn run_path(toks: &[&str]) -> String {
     let s = String::from_utf8(unhex(toks[0])).expect("utf8");
-    let p = Path::new(&s);
+    // `f`: the same string through the `From<&str>` conversion (`"…".into()`), the other public way to a Path
+    let p = if toks.len() > 1 && toks[1] == "f" { Path::from(s.as_str()) } else { Path::new(&s) };
     let mut out = Vec::new();
     p.to_aml_bytes(&mut out);
     hex(&out)
@@ -306,7 +310,10 @@ pub fn gen_uuid(r: &mut Rng, tier: &str, emit: &mut dyn FnMut(String)) {
             s[pos] = *c;
             e(std::str::from_utf8(&s).unwrap());
         }
-        for c in [b'-', b'g', b'G', b' ', b'x', b'/', b':', b'@', b'`'] {
+        // every other ASCII byte at this position (a parser built on a library routine may accept '+', a
+        // blank, an underscore …)
+        for c in 1u8..=127 {
+            if HEXD.contains(&c) { continue; }
             let mut s = base.as_bytes().to_vec();
             s[pos] = c;
             e(std::str::from_utf8(&s).unwrap());
